@@ -33,12 +33,12 @@ Rotated   == { B(0, 0, 8, 4, 1, 0), B(1, 0, 6, 2, 1, 0), B(1, 1, 4, 8, 1, 0), B(
                B(0, 0, 6, 4, 3, 0), B(1, 1, 4, 3, 2, 0), B(-1, 1, 3, 6, 3, 0), B(3, -1, 2, 8, 5, 0),
                B(0, 0, 6, 8, 1, 0) }             \* the last one covers the same region as B(0,0,8,6,0)
 Sparse    == { B(30, 30, 4, 4, 0, 1), B(30, 0, 6, 3, 1, 0), B(-30, 5, 2, 6, 0, 0), B(0, 40, 4, 2, 2, 0) }
-Invalid   == { B(0, 0, 0, 4, 0, 1), B(0, 0, 4, 0, 0, 0), B(1, 1, -2, 4, 0, 1), B(0, 0, 4, -2, 1, 0), B(2, 0, 0, 0, 0, 1) }
+Invalid   == { B(0, 0, 0, 4, 0, 1), B(0, 0, 4, 0, 0, 0), B(1, 1, -2, 4, 0, 1), B(0, 0, 4, -2, 1, 0), B(2, 0, 0, 0, 0, 1), B(0, 0, -4, -2, 0, 1), B(1, 0, -6, -8, 0, 0) }
 Full  == Nested \cup Clustered \cup Rotated \cup Sparse \cup Invalid          \* 30 boxes
 Small == { B(0, 0, 8, 6, 0, 1), B(0, 0, 6, 4, 0, 0), B(0, 0, 2, 2, 0, 1), B(1, 1, 4, 3, 0, 0),
            B(2, 0, 8, 6, 0, 0), B(0, 3, 6, 4, 0, 1), B(3, 1, 6, 4, 0, 0), B(-2, -1, 6, 8, 0, 1),
            B(0, 0, 8, 4, 1, 0), B(1, 0, 6, 2, 1, 0), B(2, 2, 6, 3, 1, 0), B(1, 1, 4, 3, 2, 0), B(0, 0, 6, 8, 1, 0),
-           B(30, 30, 4, 4, 0, 1), B(0, 0, 0, 4, 0, 1), B(0, 0, 4, 0, 0, 0) }                               \* 16 boxes
+           B(30, 30, 4, 4, 0, 1), B(0, 0, 0, 4, 0, 1), B(0, 0, 4, 0, 0, 0), B(0, 0, -4, -2, 0, 1) }          \* 17 boxes (negative width AND height: positive aspect, negative height)
 Tiny  == { B(0, 0, 8, 6, 0, 1), B(0, 0, 6, 4, 0, 0), B(1, 1, 4, 3, 0, 0), B(2, 0, 8, 6, 0, 0),
            B(1, 0, 6, 2, 1, 0), B(2, 2, 6, 3, 1, 0), B(-2, -1, 6, 8, 0, 1), B(0, 0, 4, 0, 0, 0) }           \* 8 boxes
 Boxes == IF Alpha = "full" THEN Full ELSE IF Alpha = "small" THEN Small ELSE Tiny
